@@ -1100,6 +1100,25 @@ fn tween_one(which: usize, t: &TweenScene, ms: &[Motion], ctx: &mut Ctx) {
 		}
 		ctx.state(hash64(&((want.0 * 1024.0) as i64, (want.1 * 1024.0) as i64)));
 	}
+	// q and -q denote the same orientation: a tween to the negated target quaternion renders the same trajectory
+	if which == 2 || which == 3 {
+		let qd0 = t.sc.lq.x * t.lq.x + t.sc.lq.y * t.lq.y + t.sc.lq.z * t.lq.z + t.sc.lq.w * t.lq.w;
+		if qd0.abs() > 1e-3 {
+			let tn = TweenScene { sc: t.sc, epos: t.epos, lpos: t.lpos, lq: Q { x: -t.lq.x, y: -t.lq.y, z: -t.lq.z, w: -t.lq.w }, s: t.s, frames: t.frames };
+			ctx.evals += 1;
+			match run_tween(which, &tn) {
+				Ok(on) => {
+					if let Some(i) = (0..out.len().min(on.len())).find(|&i| (out[i].0 - on[i].0).abs() > 2e-5 || (out[i].1 - on[i].1).abs() > 2e-5) {
+						ctx.fail(
+							format!("a tween to a target orientation and to the same orientation given as the negated quaternion render differently :: tween of {}", TWEENS[which]),
+							format!("{} -> frame {}: {:?} vs {:?} (negated target); all frames {:?} vs {:?}", what, i, out[i], on[i], out, on),
+						);
+					}
+				}
+				Err(p) => ctx.fail(format!("panic: {} :: tween of {} to a negated quaternion", p, TWEENS[which]), what.clone()),
+			}
+		}
+	}
 	// the whole trajectory is unchanged by a common rigid motion
 	let qd = t.sc.lq.x * t.lq.x + t.sc.lq.y * t.lq.y + t.sc.lq.z * t.lq.z + t.sc.lq.w * t.lq.w;
 	if which == 4 || qd.abs() < 1e-3 {
